@@ -128,7 +128,7 @@ func init() {
 func init() {
 	mutant("idle-priority-rejected", "state-table", "serverConn.go", "if fr.Type() != FrameHeaders && fr.Type() != FramePriority {\n			return NewGoAwayError(ProtocolError, \"wrong frame on idle stream\")", "if fr.Type() != FrameHeaders {\n			return NewGoAwayError(ProtocolError, \"wrong frame on idle stream\")")
 	mutant("data-before-headers-finished", "state-table", "serverConn.go", "		if !strm.headersFinished {\n			return NewGoAwayError(ProtocolError, \"stream didn't end the headers\")\n		}\n", "")
-	mutant("trailers-without-endstream", "state-table", "serverConn.go", "		if !fr.Flags().Has(FlagEndStream) {\n			return NewGoAwayError(ProtocolError, \"stream not open\")\n		}\n\n", "")
+	mutant("trailers-without-endstream", "state-table", "serverConn.go", "		if !fr.Flags().Has(FlagEndStream) {\n			malformed = NewResetStreamError(ProtocolError, \"trailers that do not end the stream\")\n		}\n\n", "")
 	mutant("idle-headers-endstream-stays-open", "state-table", "serverConn.go", "			strm.SetState(StreamStateOpen)\n			if fr.Flags().Has(FlagEndStream) {\n				strm.SetState(StreamStateHalfClosed)\n			}", "			strm.SetState(StreamStateOpen)")
 	mutant("rst-in-halfclosed-ignored", "state-table", "serverConn.go", "	if fr.Type() == FrameResetStream {\n		strm.SetState(StreamStateClosed)\n	}\n\n	switch strm.State() {", "	switch strm.State() {")
 	mutant("stream-closed-code-changed", "state-table", "serverConn.go", "return NewGoAwayError(StreamClosedError, \"wrong frame on half-closed stream\")", "return NewGoAwayError(FlowControlError, \"wrong frame on half-closed stream\")")
@@ -603,7 +603,7 @@ func init() {
 	mutant("drain-loop-decode-error-is-a-stream-error", "block-remainder-decoded", "serverConn.go", "			return nil, fields, NewGoAwayError(CompressionError, err.Error())", "			return nil, fields, NewResetStreamError(CompressionError, err.Error())")
 	mutant("drain-loop-stops-at-any-empty-field", "block-remainder-decoded", "serverConn.go", "		if len(b) == 0 && hf.Empty() {\n			// Ended in a dynamic table size update: no field.", "		if hf.Empty() {\n			// Ended in a dynamic table size update: no field.")
 	mutant("drain-loop-always-at-block-start", "block-remainder-decoded", "serverConn.go", "		b, err = sc.dec.nextField(hf, fields == 0, fields, b)", "		b, err = sc.dec.nextField(hf, true, fields, b)")
-	mutant("rejected-field-not-counted", "block-remainder-decoded", "serverConn.go", "sc.skipFields(b, strm.blockFields+1, fr.Flags().Has(FlagEndHeaders))", "sc.skipFields(b, strm.blockFields, fr.Flags().Has(FlagEndHeaders))")
+	mutant("rejected-field-not-counted", "block-remainder-decoded", "serverConn.go", "	return sc.rejectBlockFrom(strm, fr, b, strm.blockFields+1, reason)", "	return sc.rejectBlockFrom(strm, fr, b, strm.blockFields, reason)")
 	mutant("rejection-drops-the-cut-field", "block-remainder-decoded", "serverConn.go", "	strm.previousHeaderBytes = append(strm.previousHeaderBytes[:0], carry...)\n	strm.blockFields = fields\n", "	strm.blockFields = fields\n")
 	mutant("rejection-swallowed", "block-remainder-decoded", "serverConn.go", "		return err\n	}\n\n	return reason\n}", "		return err\n	}\n\n	return err\n}")
 	mutant("open-block-read-from-end-stream", "block-remainder-decoded", "serverConn.go", "	strm.blockOpen = !fr.Flags().Has(FlagEndHeaders)", "	strm.blockOpen = !fr.Flags().Has(FlagEndStream)")
@@ -989,4 +989,10 @@ func init() {
 	mutant("block-start-forgets-it-is-the-trailers", "client-block-state", "conn.go", "		hb.final = false\n		hb.interim = false\n", "		hb.final = false\n		hb.interim = false\n		hb.trailers = false\n")
 	mutant("write-loop-leaves-with-an-unanswered-request", "client-stuck-writes-bounded", "conn.go", "			err := c.flushOut()\n			if err == nil {\n				err = c.writeRequest(ctx)\n			}\n", "			if err := c.flushOut(); err != nil {\n				return WriteError{err}\n			}\n\n			err := c.writeRequest(ctx)\n")
 	mutant("settings-release-does-not-end-the-connection", "server-loop-shape", "serverConn.go", "					sc.flushStreams(strms, closeStream)\n				}\n\n				// The credit may have let the last response a GOAWAY was\n				// waiting for go out.\n				if isClosing() && canCloseAfterGoAway() {\n					break loop\n				}\n", "					sc.flushStreams(strms, closeStream)\n\n					if isClosing() && canCloseAfterGoAway() {\n						break loop\n					}\n				}\n")
+}
+
+func init() {
+	mutant("trailers-without-end-stream-end-the-connection", "stream-offences-stay-on-the-stream", "serverConn.go", "			malformed = NewResetStreamError(ProtocolError, \"trailers that do not end the stream\")", "			malformed = NewGoAwayError(ProtocolError, \"trailers that do not end the stream\")")
+	mutant("malformed-frame-rejected-before-its-block-is-decoded", "hdr-must-decode", "serverConn.go", "	if malformed != nil {\n		return sc.rejectBlockFrom(strm, fr, b, strm.blockFields, malformed)\n	}\n", "	if malformed != nil {\n		return malformed\n	}\n")
+	mutant("rejected-block-start-counts-a-field-too-many", "block-remainder-decoded", "serverConn.go", "	return sc.rejectBlockFrom(strm, fr, b, strm.blockFields+1, reason)", "	return sc.rejectBlockFrom(strm, fr, b, strm.blockFields+2, reason)")
 }
